@@ -47,3 +47,39 @@ silent("C74", "dispatch-branches-reordered-and-direct-indexing",
 silent("C74", "paulis-by-full-class-names",
        [(PT, "from pennylane.ops import CNOT, RZ, H, I, S, X, Y, Z", "from pennylane.ops import CNOT, RZ, H, I, S, X, Y, Z, PauliY"),
         (PT, "    Y: (1, 1),\n    Z: (0, 1),\n}", "    PauliY: (1, 1),\n    Z: (0, 1),\n}")])
+
+# ---- R-C74-reset ----------------------------------------------------------------------------------
+DEC = "pennylane/ftqc/decomposition.py"
+fire("C74", "cnot-m12-measured-without-reset (seed patch1)",
+     (DEC, "        m12 = measure(graph_wires[9], reset=True)", "        m12 = measure(graph_wires[9])"), "R-C74-reset", "cnot_measurements")
+fire("C74", "hadamard-m3-reset-false",
+     (DEC, "    m1 = measure_x(wires[0], reset=True)\n    m2 = measure_y(wires[1], reset=True)\n    m3 = measure_y(wires[2], reset=True)",
+           "    m1 = measure_x(wires[0], reset=True)\n    m2 = measure_y(wires[1], reset=True)\n    m3 = measure_y(wires[2], reset=False)"),
+     "R-C74-reset", "_hadamard_measurements")
+fire("C74", "rot-cond_measure-application-without-reset",
+     (DEC, '    )(plane="XY", wires=wires[2], reset=True)', '    )(plane="XY", wires=wires[2])'), "R-C74-reset", "_rot_measurements")
+fire("C74", "rz-cond_measure-one-partial-without-reset",
+     (DEC, "        partial(measure_arbitrary_basis, angle=-angle, reset=True),", "        partial(measure_arbitrary_basis, angle=-angle),"), "R-C74-reset", "_rz_measurements")
+silent("C74", "rz-reset-moved-from-partials-to-application",
+       [(DEC, "        partial(measure_arbitrary_basis, angle=angle, reset=True),\n        partial(measure_arbitrary_basis, angle=-angle, reset=True),\n    )(plane=\"XY\", wires=wires[2])",
+              "        partial(measure_arbitrary_basis, angle=angle),\n        partial(measure_arbitrary_basis, angle=-angle),\n    )(plane=\"XY\", wires=wires[2], reset=True)")])
+silent("C74", "rot-partials-bound-to-locals",
+       [(DEC, "    m2 = cond_measure(\n        m1,\n        partial(measure_arbitrary_basis, angle=phi),\n        partial(measure_arbitrary_basis, angle=-phi),\n    )(plane=\"XY\", wires=wires[1], reset=True)",
+              "    plus = partial(measure_arbitrary_basis, angle=phi, reset=True)\n    minus = partial(measure_arbitrary_basis, angle=-phi, reset=True)\n"
+              "    m2 = cond_measure(m1, plus, minus)(plane=\"XY\", wires=wires[1])")])
+
+# ---- R-C74-wireorder ------------------------------------------------------------------------------
+fire("C74", "xz-record-wires-sorted (seed patch2)",
+     (PT, "        wires = list(op.wires)", "        wires = sorted(op.wires)"), "R-C74-wireorder", "_get_xz_record")
+fire("C74", "xz-record-wires-through-set",
+     (PT, "        wires = list(op.wires)", "        wires = list(set(op.wires))"), "R-C74-wireorder", "_get_xz_record")
+fire("C74", "xz-record-wires-sorted-in-place",
+     (PT, "        wires = list(op.wires)\n", "        wires = list(op.wires)\n        wires.sort()\n"), "R-C74-wireorder", "_get_xz_record")
+fire("C74", "non-clifford-wire-taken-from-sorted-wires",
+     (PT, "            if _wires_used[op.wires[0]] > 1:", "            if _wires_used[sorted(op.wires)[0]] > 1:"), "R-C74-wireorder", "_parse_mid_measurements")
+fire("C74", "measured-wires-reversed",
+     (PT, "    measured_wires = tape.measurements[0].wires", "    measured_wires = tape.measurements[0].wires[::-1]"), "R-C74-wireorder", "_correct_samples")
+silent("C74", "xz-record-wires-as-tuple", [(PT, "        wires = list(op.wires)", "        wires = tuple(op.wires)")])
+silent("C74", "order-insensitive-uses-of-sorted-and-set",
+       [(PT, "        gate_offset = 4 if len(op.wires) == 1 else 13", "        gate_offset = 4 if len(set(op.wires)) == 1 else 13"),
+        (PT, "    num_wires = max(tape.wires) + 1\n\n    x_record", "    num_wires = max(sorted(tape.wires)) + 1\n\n    x_record")])
